@@ -93,3 +93,4 @@ pub fn select_ready<R> (r1: &Receiver<R>, r2: &Receiver<R>) -> usize {
     s.recv(&r2.inner);
     s.ready()
 }
+#[cfg(rjrssync_verif)] pub(crate) mod verif_hooks { include!(concat!(env!("RJRSSYNC_VERIF_HARNESS"), "/hooks_memory_bound_channel.rs")); }
